@@ -1,0 +1,245 @@
+//! Verification hooks. Compiled only with `--cfg simple_sds_verif`.
+//!
+//! The hooks observe the library without changing what it computes:
+//!
+//! * `access` / `carve`: bounds events at the unchecked access sites. When recording is on and
+//!   an index is out of bounds, the hook panics with a marker *before* the access is made.
+//! * `syscall`: results of system calls the library makes.
+//! * `AtomicUsize`: a traced stand-in for `std::sync::atomic::AtomicUsize` that logs every
+//!   primitive operation in its linearization order and lets a test gate each primitive.
+
+use std::cell::{Cell, RefCell};
+use std::sync::{Arc, Mutex};
+
+pub use std::sync::atomic::Ordering;
+
+/// Marker at the start of the panic message raised for an out-of-bounds event.
+pub const OOB_MARKER: &str = "VERIF-OOB";
+
+//-----------------------------------------------------------------------------
+
+/// Summary of the bounds events seen by the current thread since the last `start_recording`.
+#[derive(Clone, Debug, Default, PartialEq, Eq)]
+pub struct AccessSummary {
+    /// Number of index events.
+    pub accesses: usize,
+    /// Number of carve events.
+    pub carves: usize,
+    /// Event with the smallest margin: `(site, index or end, len)`.
+    pub worst: Option<(&'static str, usize, usize)>,
+    /// Out-of-bounds events: `(site, index or end, len)`.
+    pub oob: Vec<(&'static str, usize, usize)>,
+    /// System calls: `(name, addr, len, ret)`.
+    pub syscalls: Vec<(&'static str, usize, usize, i64)>,
+}
+
+thread_local! {
+    static RECORDING: Cell<bool> = Cell::new(false);
+    static SUMMARY: RefCell<AccessSummary> = RefCell::new(AccessSummary::default());
+    static THREAD_TAG: Cell<usize> = Cell::new(0);
+}
+
+/// Starts recording bounds events on this thread and clears the summary.
+pub fn start_recording() {
+    SUMMARY.with(|s| *s.borrow_mut() = AccessSummary::default());
+    RECORDING.with(|r| r.set(true));
+}
+
+/// Stops recording and returns the summary.
+pub fn stop_recording() -> AccessSummary {
+    RECORDING.with(|r| r.set(false));
+    SUMMARY.with(|s| s.borrow().clone())
+}
+
+fn note(site: &'static str, end: usize, len: usize, ok: bool, is_carve: bool) {
+    if !RECORDING.with(|r| r.get()) {
+        return;
+    }
+    SUMMARY.with(|s| {
+        let mut s = s.borrow_mut();
+        if is_carve { s.carves += 1; } else { s.accesses += 1; }
+        // Margin = len - end; the event with the smallest margin is the worst one.
+        let margin = (len as i128) - (end as i128);
+        let worse = match s.worst {
+            None => true,
+            Some((_, e, l)) => margin < (l as i128) - (e as i128),
+        };
+        if worse {
+            s.worst = Some((site, end, len));
+        }
+        if !ok {
+            s.oob.push((site, end, len));
+        }
+    });
+    if !ok {
+        panic!("{}: {} index/end {} with length {}", OOB_MARKER, site, end, len);
+    }
+}
+
+/// An index event: the library is about to read or write `buffer[index]` without a bounds check.
+#[inline]
+pub fn access(site: &'static str, index: usize, len: usize) {
+    note(site, index, len, index < len, false);
+}
+
+/// A carve event: the library is about to build a slice of `bytes` bytes starting at byte `start`
+/// of a buffer of `buf_bytes` bytes.
+#[inline]
+pub fn carve(site: &'static str, start: usize, bytes: usize, buf_bytes: usize) {
+    let end = start.checked_add(bytes);
+    match end {
+        Some(end) => note(site, end, buf_bytes, end <= buf_bytes, true),
+        None => note(site, usize::MAX, buf_bytes, false, true),
+    }
+}
+
+/// A system call event.
+pub fn syscall(name: &'static str, addr: usize, len: usize, ret: i64) {
+    if !RECORDING.with(|r| r.get()) {
+        return;
+    }
+    SUMMARY.with(|s| s.borrow_mut().syscalls.push((name, addr, len, ret)));
+}
+
+//-----------------------------------------------------------------------------
+
+/// One primitive operation on a traced atomic, in linearization order.
+#[derive(Clone, Debug, PartialEq, Eq)]
+pub struct AtomicEvent {
+    /// Position in the linearization order (per process).
+    pub seq: usize,
+    /// Tag of the thread that made the operation (see `set_thread_tag`).
+    pub thread: usize,
+    /// `"load"`, `"store"`, `"swap"`, `"fetch_add"`, `"fetch_sub"`, `"cas_ok"`, `"cas_fail"`.
+    pub op: &'static str,
+    /// Value before the operation.
+    pub old: usize,
+    /// Value after the operation.
+    pub new: usize,
+}
+
+type Gate = Arc<dyn Fn(usize, &'static str) + Send + Sync>;
+
+struct AtomicLog {
+    enabled: bool,
+    events: Vec<AtomicEvent>,
+}
+
+static ATOMIC_LOG: Mutex<AtomicLog> = Mutex::new(AtomicLog { enabled: false, events: Vec::new() });
+static GATE: Mutex<Option<Gate>> = Mutex::new(None);
+
+/// Sets the tag that identifies the current thread in atomic events.
+pub fn set_thread_tag(tag: usize) {
+    THREAD_TAG.with(|t| t.set(tag));
+}
+
+/// Starts logging atomic operations (all threads) and clears the log.
+pub fn start_atomic_log() {
+    let mut log = ATOMIC_LOG.lock().unwrap();
+    log.enabled = true;
+    log.events.clear();
+}
+
+/// Stops logging atomic operations and returns the log.
+pub fn stop_atomic_log() -> Vec<AtomicEvent> {
+    let mut log = ATOMIC_LOG.lock().unwrap();
+    log.enabled = false;
+    std::mem::take(&mut log.events)
+}
+
+/// Installs (or removes) a gate that is called with `(thread tag, operation)` before each primitive.
+/// The gate may block; it is called without any lock held.
+pub fn set_gate(gate: Option<Gate>) {
+    *GATE.lock().unwrap() = gate;
+}
+
+fn pass_gate(op: &'static str) {
+    let gate = GATE.lock().unwrap().clone();
+    if let Some(gate) = gate {
+        gate(THREAD_TAG.with(|t| t.get()), op);
+    }
+}
+
+/// A traced stand-in for `std::sync::atomic::AtomicUsize`.
+///
+/// Every primitive is performed while holding the log lock, so the order of the events in the log
+/// is the order in which the operations took effect.
+#[derive(Debug, Default)]
+pub struct AtomicUsize {
+    inner: std::sync::atomic::AtomicUsize,
+}
+
+impl AtomicUsize {
+    pub const fn new(value: usize) -> Self {
+        AtomicUsize { inner: std::sync::atomic::AtomicUsize::new(value) }
+    }
+
+    fn traced<F: FnOnce(&std::sync::atomic::AtomicUsize) -> (&'static str, usize, usize)>(&self, gate_op: &'static str, f: F) -> (usize, usize) {
+        pass_gate(gate_op);
+        let mut log = ATOMIC_LOG.lock().unwrap();
+        let (op, old, new) = f(&self.inner);
+        if log.enabled {
+            let seq = log.events.len();
+            let thread = THREAD_TAG.with(|t| t.get());
+            log.events.push(AtomicEvent { seq, thread, op, old, new });
+        }
+        (old, new)
+    }
+
+    pub fn load(&self, _: Ordering) -> usize {
+        self.traced("load", |a| { let v = a.load(Ordering::SeqCst); ("load", v, v) }).0
+    }
+
+    pub fn store(&self, value: usize, _: Ordering) {
+        self.traced("store", |a| { let old = a.swap(value, Ordering::SeqCst); ("store", old, value) });
+    }
+
+    pub fn swap(&self, value: usize, _: Ordering) -> usize {
+        self.traced("swap", |a| { let old = a.swap(value, Ordering::SeqCst); ("swap", old, value) }).0
+    }
+
+    pub fn fetch_add(&self, value: usize, _: Ordering) -> usize {
+        self.traced("fetch_add", |a| { let old = a.fetch_add(value, Ordering::SeqCst); ("fetch_add", old, old.wrapping_add(value)) }).0
+    }
+
+    pub fn fetch_sub(&self, value: usize, _: Ordering) -> usize {
+        self.traced("fetch_sub", |a| { let old = a.fetch_sub(value, Ordering::SeqCst); ("fetch_sub", old, old.wrapping_sub(value)) }).0
+    }
+
+    pub fn compare_exchange(&self, current: usize, new: usize, _: Ordering, _: Ordering) -> Result<usize, usize> {
+        let mut result = Ok(0);
+        self.traced("cas", |a| {
+            result = a.compare_exchange(current, new, Ordering::SeqCst, Ordering::SeqCst);
+            match result {
+                Ok(old) => ("cas_ok", old, new),
+                Err(old) => ("cas_fail", old, old),
+            }
+        });
+        result
+    }
+
+    pub fn compare_exchange_weak(&self, current: usize, new: usize, success: Ordering, failure: Ordering) -> Result<usize, usize> {
+        self.compare_exchange(current, new, success, failure)
+    }
+
+    pub fn fetch_update<F: FnMut(usize) -> Option<usize>>(&self, set_order: Ordering, fetch_order: Ordering, mut f: F) -> Result<usize, usize> {
+        let mut prev = self.load(fetch_order);
+        while let Some(next) = f(prev) {
+            match self.compare_exchange_weak(prev, next, set_order, fetch_order) {
+                x @ Ok(_) => return x,
+                Err(next_prev) => prev = next_prev,
+            }
+        }
+        Err(prev)
+    }
+
+    pub fn get_mut(&mut self) -> &mut usize {
+        self.inner.get_mut()
+    }
+
+    pub fn into_inner(self) -> usize {
+        self.inner.into_inner()
+    }
+}
+
+//-----------------------------------------------------------------------------
